@@ -9,9 +9,7 @@
    function not in [skip], in order, each instruction index 0..n-1 once, end flag exactly on the last, the
    operator found at the reported location; after EReset the same list again; no EPanic anywhere.
 
-   The property is FALSE of the code as it is (defect D12).  [known_D12] describes the failing inputs:
-   no local function; every local function skipped; the first local function skipped while the first
-   unskipped one has a different length; (for the after-end curr_loc only) the last local function skipped. *)
+   The property holds of the code after the repair of defect D12 (no hypothesis on the skip list). *)
 From Coq Require Import List NArith Bool.
 Import ListNotations.
 From Orca Require Import Util Iter CheckIter IterProofs.
@@ -19,37 +17,33 @@ Local Open Scope N_scope.
 
 (* Full strength, all modules, all skip lists, all scripts, no size bound. *)
 Theorem C25_visits_exact : forall mt skip k probe,
-  wf_meta mt = true -> known_D12 mt skip probe = false ->
+  wf_meta mt = true ->
   mi_run mt skip k probe = expected_trace (expected_mod 0 mt skip) k probe.
 Proof. exact mi_run_exact. Qed.
 Print Assumptions C25_visits_exact.
 
-(* Whenever the events observed on the real ModuleIterator agree with the model, the module is
-   well-formed and the input is outside D12, the observed events satisfy the specification. *)
+(* Whenever the events observed on the real ModuleIterator agree with the model and the module is
+   well-formed, the observed events satisfy the specification. *)
 Theorem C25_checker_sound : forall c : mcase,
-  agree25 c = true -> domain25 c = true -> known25 c = [] -> holds25 c = true.
+  agree25 c = true -> domain25 c = true -> holds25 c = true.
 Proof. exact checker25_sound. Qed.
 Print Assumptions C25_checker_sound.
 
-(* The hypothesis [known_D12 = false] cannot be dropped: one witness per shape. *)
-Theorem C25_refuted_first_function_skipped :
-  mi_run [(0, 1); (1, 5)] [0] None false <> expected_trace (expected_mod 0 [(0, 1); (1, 5)] [0]) None false.
-Proof. exact D12_first_skipped_refuted. Qed.
-Print Assumptions C25_refuted_first_function_skipped.
-Theorem C25_refuted_no_local_function :
-  mi_run [] [] None false = [EPanic] /\ expected_trace (expected_mod 0 [] []) None false = [].
-Proof. exact D12_no_local_function_refuted. Qed.
-Theorem C25_refuted_all_skipped :
-  mi_run [(0, 2)] [0] None false = [EPanic] /\ expected_trace (expected_mod 0 [(0, 2)] [0]) None false = [].
-Proof. exact D12_all_skipped_refuted. Qed.
-Theorem C25_refuted_trailing_skipped :
-  mi_run [(0, 2); (1, 1)] [1] None true = [V 0 0 0 false true; V 0 0 1 true true; EPanic].
-Proof. exact D12_trailing_skipped_refuted. Qed.
-Theorem C25_refuted :
-  ~ (forall mt skip k probe, wf_meta mt = true ->
-       mi_run mt skip k probe = expected_trace (expected_mod 0 mt skip) k probe).
-Proof. exact C25_unconditional_refuted. Qed.
-Print Assumptions C25_refuted.
+(* The inputs that refuted the property before the repair of D12 (one per shape). *)
+Example C25_first_function_skipped :
+  mi_run [(0, 1); (1, 5)] [0] None false
+  = [V 0 1 0 false true; V 0 1 1 false true; V 0 1 2 false true; V 0 1 3 false true; V 0 1 4 true true].
+Proof. exact D12_first_skipped_now. Qed.
+Example C25_first_function_skipped_longer :
+  mi_run [(1, 3); (2, 2)] [1] None false = [V 0 2 0 false true; V 0 2 1 true true].
+Proof. exact D12_first_skipped_longer_now. Qed.
+Example C25_no_local_function : mi_run [] [] (Some 0%nat) true = [EReset; EAfter].
+Proof. exact D12_no_local_function_now. Qed.
+Example C25_all_skipped : mi_run [(0, 2)] [0] (Some 0%nat) true = [EReset; EAfter].
+Proof. exact D12_all_skipped_now. Qed.
+Example C25_trailing_skipped :
+  mi_run [(0, 2); (1, 1)] [1] None true = [V 0 0 0 false true; V 0 0 1 true true; EAfter].
+Proof. exact D12_trailing_skipped_now. Qed.
 
 (* The specification says what the property says: it contains exactly the instructions of the unskipped
    local functions with the end flag on the last one, strictly increasing in (function, instruction). *)
@@ -66,7 +60,7 @@ Print Assumptions C25_spec_in_order_once.
    skipped, two next() calls, reset, full traversal, curr_loc after the end *)
 Example C25_nonvacuous :
   let mt := [(2, 2); (3, 3); (4, 1)] in let skip := [3; 0] in
-  wf_meta mt = true /\ known_D12 mt skip true = false /\
+  wf_meta mt = true /\
   expected_trace (expected_mod 0 mt skip) (Some 2%nat) true
   = [V 0 2 0 false true; V 0 2 1 true true; V 0 4 0 true true; EReset;
      V 0 2 0 false true; V 0 2 1 true true; V 0 4 0 true true; EAfter].
